@@ -4,6 +4,7 @@
 // EXPECT_N_LEAKS, IGNORE_ALL_LEAKS_IN_TEST, failing an own check). Reference: the set of blocks allocated between
 // a test's pre and post action that are still outstanding at post.
 #include <vector>
+#include <algorithm>
 #include <string>
 #include <cstring>
 #include <new>
@@ -27,9 +28,10 @@
 namespace {
 
 // op alphabet, simplest first
-enum Op : char { NEW = 'n', MAL = 'm', FREE_OWN = 'f', FREE_OLD = 'F', EXP1 = '1', EXP2 = '2', IGN = 'I', FAILCHK = 'X', REALLOC_FAILS = 'R', REALLOC = 'r' };
-const char OPS[] = {NEW, MAL, FREE_OWN, FREE_OLD, EXP1, EXP2, IGN, FAILCHK, REALLOC_FAILS, REALLOC};
-constexpr int NOPS = 10;
+enum Op : char { NEW = 'n', MAL = 'm', FREE_OWN = 'f', FREE_OLD = 'F', EXP1 = '1', EXP2 = '2', IGN = 'I', FAILCHK = 'X', REALLOC_FAILS = 'R', REALLOC = 'r', BULK = 'B' };
+const char OPS[] = {NEW, MAL, FREE_OWN, FREE_OLD, EXP1, EXP2, IGN, FAILCHK, REALLOC_FAILS, REALLOC, BULK};
+constexpr int NOPS = 11;
+constexpr int NBULK = 40;   // B: 40 blocks allocated and kept by the test: more than the leak report can list (its buffer is finite), the total must still be exact
 // r: successful realloc of the oldest live malloc block of an earlier test (else of the test's own newest malloc block) to a
 // new size: the old block is released and the result is a block of the test that reallocated it
 // R: realloc of the oldest live malloc block of an earlier test (else of the test's own newest malloc block) for which the
@@ -43,7 +45,7 @@ struct Program { TestScript tests[3]; int ntests = 0; };
 
 // ---- runtime state (static storage only: harness code must not allocate while the overloads are on)
 struct Block { char* p; int size; char fam; int owner; bool live; };
-Block g_blocks[32]; int g_nblocks; int g_size_next;
+Block g_blocks[256]; int g_nblocks; int g_size_next;
 Program g_prog;
 int g_current_test;
 struct Watch : TestPlugin {     // tells the scripted phases which test is running (installed below the leak plugin)
@@ -70,6 +72,9 @@ void run_phase(int phase) {
             if (k < 0) break;
             g_blocks[k].live = false;
             if (g_blocks[k].fam == NEW) operator delete(g_blocks[k].p); else cpputest_free_location(g_blocks[k].p, "script.c", 78);
+            break; }
+        case BULK: {
+            for (int n = 0; n < NBULK && g_nblocks < 250; n++) { int size = g_size_next++; char* p = (char*)cpputest_malloc_location((size_t)size, "script.c", 81); g_blocks[g_nblocks++] = Block{p, size, MAL, t, true}; }
             break; }
         case REALLOC: {
             int k = -1;
@@ -103,7 +108,7 @@ void do_teardown() { run_phase(2); }
 struct Body : ExecFunction { void exec() override { run_phase(1); } };
 
 struct Recorder : StringBufferTestOutput {
-    int cur = -1; int nfail[3] = {0, 0, 0}; char leaktext[3][1500];
+    int cur = -1; int nfail[3] = {0, 0, 0}; char leaktext[3][6000];
     void printCurrentTestStarted(const UtestShell& t) override { cur++; g_current_test = cur; StringBufferTestOutput::printCurrentTestStarted(t); }
     void printFailure(const TestFailure& f) override {
         if (cur < 0 || cur > 2) return;
@@ -131,6 +136,7 @@ RefProg reference(const Program& p) {
                 case NEW: case MAL: blocks.push_back({size_next++, t, true, op == MAL}); break;
                 case FREE_OWN: { for (int b = (int)blocks.size() - 1; b >= 0; b--) if (blocks[b].live && blocks[b].owner == t) { blocks[b].live = false; break; } break; }
                 case FREE_OLD: { for (size_t b = 0; b < blocks.size(); b++) if (blocks[b].live && blocks[b].owner < t) { blocks[b].live = false; break; } break; }
+                case BULK: for (int n = 0; n < NBULK; n++) blocks.push_back({size_next++, t, true, true}); break;
                 case REALLOC_FAILS: break;      // nothing changes
                 case REALLOC: {
                     int k = -1;
@@ -157,9 +163,9 @@ RefProg reference(const Program& p) {
 std::string render(const Program& p) {
     std::string o; const char* ph = "sbt";
     for (int t = 0; t < p.ntests; t++) { o += "["; for (int i = 0; i < p.tests[t].n; i++) { o += ph[(int)p.tests[t].steps[i].phase]; o += ':'; o += p.tests[t].steps[i].op; o += ' '; } o += "] "; }
-    return o + "(n new, m malloc, f free own newest, F free oldest block of an earlier test, R failing / r successful realloc of the oldest malloc block of an earlier test (else own newest), 1/2 EXPECT_N_LEAKS, I IGNORE_ALL_LEAKS, X fail own check; s/b/t = setup/body/teardown)";
+    return o + "(n new, m malloc, f free own newest, F free oldest block of an earlier test, R failing / r successful realloc of the oldest malloc block of an earlier test (else own newest), B 40 blocks kept, 1/2 EXPECT_N_LEAKS, I IGNORE_ALL_LEAKS, X fail own check; s/b/t = setup/body/teardown)";
 }
-std::vector<int> parse_sizes(const char* text) { std::vector<int> v; const char* p = text; while ((p = strstr(p, "Leak size: "))) { v.push_back(atoi(p + 11)); p += 11; } std::sort(v.begin(), v.end()); return v; }
+std::vector<int> parse_sizes(const char* text) { std::vector<int> v; const char* p = text; while ((p = strstr(p, "Leak size: "))) { const char* q = p + 11; while (*q >= '0' && *q <= '9') q++; if (strncmp(q, " Allocated at", 13) == 0) v.push_back(atoi(p + 11)); /* an entry cut off by the end of the report buffer is not an entry */ p += 11; } std::sort(v.begin(), v.end()); return v; }
 int parse_total(const char* text) { if (strstr(text, "No memory leaks were detected")) return 0; const char* p = strstr(text, "Total number of leaks:"); return p ? atoi(p + 22) : -1; }
 
 alignas(16) char g_plugin_mem[sizeof(MemoryLeakWarningPlugin)];
@@ -212,7 +218,9 @@ void run_program(const Program& p) {
         if (out.nfail[t] != want) vf::fail("verdict/failure-count", d() + vf::fmt(": test %d has %d failures, reference %d", t, out.nfail[t], want));
         if (rt.leak_failure) {
             std::vector<int> sizes = parse_sizes(out.leaktext[t]), wants = rt.leaked_sizes; std::sort(wants.begin(), wants.end());
-            if (sizes != wants) vf::fail(sizes.size() > wants.size() ? "report/blames-foreign-block" : "report/wrong-blocks-listed", d() + vf::fmt(": test %d report lists %zu blocks, reference %zu", t, sizes.size(), wants.size()));
+            bool truncated = wants.size() > 12;      // a long report lists as many entries as fit; every listed one must be the test's own
+            if (truncated) { bool subset = true; for (int z : sizes) if (!std::binary_search(wants.begin(), wants.end(), z)) subset = false; if (!subset) vf::fail("report/blames-foreign-block", d() + vf::fmt(": test %d report lists a block the test does not own", t)); }
+            else if (sizes != wants) vf::fail(sizes.size() > wants.size() ? "report/blames-foreign-block" : "report/wrong-blocks-listed", d() + vf::fmt(": test %d report lists %zu blocks, reference %zu", t, sizes.size(), wants.size()));
             if (parse_total(out.leaktext[t]) != (int)wants.size()) vf::fail("report/total", d() + vf::fmt(": test %d report total %d, reference %zu", t, parse_total(out.leaktext[t]), wants.size()));
         }
     }
@@ -224,12 +232,12 @@ void run_program(const Program& p) {
 }
 
 // enumerate a test script: sequence of <= L ops, each with a phase, phases non-decreasing
-void build_scripts(int L, std::vector<TestScript>& out) {
+void build_scripts(int L, std::vector<TestScript>& out, int nops = NOPS) {
     std::vector<TestScript> cur(1);
     out.push_back(TestScript());
     for (int len = 1; len <= L; len++) {
         std::vector<TestScript> next;
-        for (auto& s : cur) for (int o = 0; o < NOPS; o++) for (int ph = (s.n ? s.steps[s.n - 1].phase : 0); ph < 3; ph++) {
+        for (auto& s : cur) for (int o = 0; o < nops; o++) for (int ph = (s.n ? s.steps[s.n - 1].phase : 0); ph < 3; ph++) {
             TestScript t = s; t.steps[t.n++] = Step{OPS[o], (char)ph}; next.push_back(t);
         }
         for (auto& s : next) out.push_back(s);
@@ -257,11 +265,14 @@ int main(int argc, char** argv) {
     if (T) {
         vf::info("pairs3.bound", vf::fmt("2 tests, all %ld x %ld scripts with <= 3 ops each", n3, n3));
         vf::section_index("pairs3", n3 * n3, [&](long idx) { Program p; p.ntests = 2; p.tests[0] = s3[idx % n3]; p.tests[1] = s3[idx / n3]; run_program(p); });
-        vf::info("triples.bound", vf::fmt("3 tests, all %ld^3 scripts with <= 2 ops each", n2));
-        vf::section_index("triples", n2 * n2 * n2, [&](long idx) { Program p; p.ntests = 3; p.tests[0] = s2[idx % n2]; p.tests[1] = s2[(idx / n2) % n2]; p.tests[2] = s2[idx / n2 / n2]; run_program(p); });
+        // triples: <= 2 ops per test over the first 8 ops (the reallocation and bulk ops are covered by single/pairs/pairs3/triples1)
+        std::vector<TestScript> t2; build_scripts(2, t2, 8); long m2 = (long)t2.size();
+        vf::info("triples.bound", vf::fmt("3 tests, all %ld^3 scripts with <= 2 ops each over {n,m,f,F,1,2,I,X}", m2));
+        vf::section_index("triples", m2 * m2 * m2, [&](long idx) { Program p; p.ntests = 3; p.tests[0] = t2[idx % m2]; p.tests[1] = t2[(idx / m2) % m2]; p.tests[2] = t2[idx / m2 / m2]; run_program(p); });
         vf::require_outcomes("triples", 8);
-    } else {
-        // triples over a reduced alphabet: <= 1 op per test
+    }
+    {
+        // triples with <= 1 op per test over the whole alphabet (both tiers)
         std::vector<TestScript> s1; build_scripts(1, s1); long n1 = (long)s1.size();
         vf::info("triples1.bound", vf::fmt("3 tests, all %ld^3 scripts with <= 1 op each", n1));
         vf::section_index("triples1", n1 * n1 * n1, [&](long idx) { Program p; p.ntests = 3; p.tests[0] = s1[idx % n1]; p.tests[1] = s1[(idx / n1) % n1]; p.tests[2] = s1[idx / n1 / n1]; run_program(p); });
